@@ -8,6 +8,8 @@ from torchvision.transforms import InterpolationMode
 
 from vlib.core import Case, Facet, Refused, Violation
 
+# thorough-tier budgets of every facet are multiplied by this factor (sized for ~5-8 min on 16 cores)
+THOROUGH_SCALE = 10
 LEVEL = "exploration"
 RULE = ("per transform family a spec = image size H,W in [1,48] (smaller than / equal to / +-1 around / much larger than the "
         "target, extreme aspect ratios), tensor or PIL, constructor parameters from the accepted ranges, seed; oracles: output "
